@@ -278,10 +278,13 @@ struct decoder_greedy<E, T, true>
         v.resize(0);
         while(true)
         {
+            const uint8_t* element_begin = pos;
             v.push_back(T());
             if (!decoder<E, T>::decode(v.back(), pos, end))
             {
+                /// bytes of an element that did not decode completely are not consumed
                 v.pop_back();
+                pos = element_begin;
                 return true;
             }
         }
